@@ -68,7 +68,7 @@ func tupleType(ctx *Context) parsec.Parser {
 	return parsec.And(
 		nodifyTuple,
 		parsec.Atom("Tuple<", "Tuple<"),
-		parsec.Many(
+		parsec.Kleene(
 			nodifyList,
 			ctx.typeParser,
 			parsec.Atom(",", ","),
